@@ -352,8 +352,14 @@ def _first_is_max(p):
 
 
 # the `prop` arguments used as inputs of write_bisc_files (plain functions on tuples; a Perm is a tuple)
+def _avoids132(p):
+    return F.avoids_classical(p, (0, 2, 1))
+
+
+# avoids231 / avoids132 are equinumerous on every level: their files have the same byte length but
+# (from n = 3 on) different content - an overwrite that changes nothing a stat() can see
 PROPS = [("avoids231", F.stack_sortable), ("involution", _involution), ("always", _always),
-         ("first_is_max", _first_is_max)]
+         ("first_is_max", _first_is_max), ("avoids132", _avoids132)]
 
 
 def _expected(prop_fn, n, kind):
@@ -1298,7 +1304,7 @@ def shard_fresh(shard):
 # --------------------------------------------------------------------------------------------
 
 def _bisc_params(quick):
-    return {"names": ["setA", "setB"], "ns": [2, 3], "props": [0, 1] if quick else [0, 1, 2]}
+    return {"names": ["setA", "setB"], "ns": [2, 3], "props": [0, 1, 4] if quick else [0, 1, 2, 4]}
 
 
 def _bisc_initials():
